@@ -427,6 +427,14 @@ func sysuStream(g *hx.Gen, id int) hx.Case {
 	if g.Chance(15) {
 		c.Rules = append(c.Rules, hx.RuleSpec{Path: "/m/post/*", Dest: "http://d2.test/$1", Methods: []string{"POST"}})
 	}
+	if g.Chance(20) {
+		// a scheme-constrained rule in front of the main one: it is the first match exactly for requests
+		// whose scheme (X-Forwarded-Proto; the listener is plain HTTP) is https
+		c.Rules = append(c.Rules, hx.RuleSpec{Path: "/m/*", Dest: "http://s0.test/$1", Scheme: g.Pick([]string{"https", "https", "http"})})
+	}
+	if g.Chance(15) {
+		c.Rules = append(c.Rules, hx.RuleSpec{Path: "/m/*", Dest: "http://s1.test/$1", Host: g.Pick([]string{"h1.test", "h2.test"})})
+	}
 	if g.Chance(30) {
 		// an exact pattern in front of the wildcard: it must match the request-target INCLUDING the
 		// query, so "/m/ab?q=1" falls through to the wildcard rule
@@ -459,6 +467,11 @@ func sysuStream(g *hx.Gen, id int) hx.Case {
 		c.Req.Target = "/m/" + g.Pick(hx.Segs) + g.Pick([]string{"", "/x", "?q=1", "/%2Fy?a=b&c"})
 	}
 	c.Req.Host = g.Pick([]string{"h1.test", "h1.test:8080", "H2.Test"})
+	if g.Chance(12) {
+		// absolute-form request-target (RFC 9112 3.2.2), possibly naming another scheme than the one the
+		// request arrived with / was forwarded with
+		c.Req.Target = g.Pick([]string{"http", "http", "https"}) + "://" + c.Req.Host + c.Req.Target
+	}
 	nh := g.Intn(6)
 	for i := 0; i < nh; i++ {
 		c.Req.Header = append(c.Req.Header, reqHeaderVocab[g.Intn(len(reqHeaderVocab))])
@@ -477,7 +490,7 @@ func sysuStream(g *hx.Gen, id int) hx.Case {
 		c.Req.Body = genBody(g)
 		c.Req.Chunked = len(c.Req.Body) > 0 && g.Chance(35)
 	}
-	for _, h := range []string{"d0.test", "c0.test", "r0.test", "r1.test", "d2.test", "d3.test", "d4.test"} {
+	for _, h := range []string{"d0.test", "c0.test", "r0.test", "r1.test", "d2.test", "d3.test", "d4.test", "s0.test", "s1.test"} {
 		if h == "r1.test" && g.Chance(50) {
 			continue // unreachable: no script entry
 		}
